@@ -352,6 +352,9 @@ package netflow9
 //@ pred allEmpty9(m MemCache) = forall j :: m.off <= j && j < m.off + len(m) ==> m.arr[j] != nil && len(m.arr[j].Templates) == 0
 //@ func GetCache
 //@   names cacheFile _ mem err b m i
+//@   opt lasterr ReadFile
+//@   exitassert [loaded] ReadFile_err == nil && Unmarshal_err == nil && mem.ShardNo == 32 && wellFormed9(mem.Cache) ==> sameview(result, mem.Cache)   // a readable file holding a well-formed cache is loaded, not replaced by an empty cache (C11: what was saved is there after the restart)
+//@   names cacheFile _ mem err b m i
 //@   exitassert [loadedOrEmpty] sameview(result, mem.Cache) || allEmpty9(result)
 //@   exitassert [decodedOnly] Unmarshal_err != nil ==> allEmpty9(result)   // a document the JSON decoder rejected (it may have filled the target half-way) is never used: only templates that were in the saved cache
 //@   opt nolock the cache being loaded or built is not shared before GetCache returns
@@ -365,7 +368,7 @@ package netflow9
 //@ func (MemCache).valid
 //@   names m _ _ shard
 //@   opt nolock called from GetCache on a cache that is not shared yet
-//@   ensures result ==> wellFormed9(m)
+//@   ensures result <==> wellFormed9(m)   // accepts exactly the caches with 32 shards that are all present and have a map
 //@   loop 1 @ range m #254612b5
 //@     invariant len(m) == 32 && (forall j :: m.off <= j && j < m.off + range_i ==> m.arr[j] != nil && !m.arr[j].Templates.isnil)
 
